@@ -11,7 +11,7 @@ PROP = {
             "distinct = FNV of (text, config); non-trivial = first pass changed the input and produced >= 16 bytes; "
             "CLI clause: directories of 3-12 of those inputs with one generated config file, 2 per shard (quick) / 13 per shard (thorough)",
     "min_nontrivial": {"quick": 3000, "thorough": 100000},
-    "max_secs": {"quick": 60, "thorough": 800},
+    "max_secs": {"quick": 600, "thorough": 1500},
     "require_clauses": ["a:second-pass-equal", "b:cli-check-after-write", "changed-by-formatting",
                         "family:g-valid", "family:corpus", "family:std-file", "family:doc-heavy", "family:seed", "family:near-width"],
     "needs_repo_bins": True,
